@@ -149,10 +149,55 @@ Fixpoint diff_go (items : list ditem) (gid : N) (acc : list N) : res (list N) :=
   end.
 Definition differences (items : list ditem) : res (list N) := diff_go items 0 [].
 
-(* ---- enc.rs: fax_decode geometry ------------------------------------------------------------- *)
-(* Vec::with_capacity(columns * rows): "capacity overflow" above isize::MAX *)
+(* ---- enc.rs: fax_decode ---------------------------------------------------------------------- *)
+Definition U16 : N := 65536.
+(* the code before the repair: Vec::with_capacity(columns * rows) — "capacity overflow" above isize::MAX.
+   Only reached when the generated flag [fax_no_capacity] is 0, i.e. if the call comes back. *)
 Definition fax_capacity (columns rows : N) : res N :=
   do c <- ck_mul 1001 columns rows;
   if ISIZE_MAX <? c then Panic 1002 else Ok c.
-(* assert_eq!(buf.len() % columns, 0) *)
-Definition fax_check (buf_len columns : N) : res N := ck_rem 1003 buf_len columns.
+
+(* fax_decode up to the decoder call: the width (u16 > 0) and the height (Option<u16>) handed to fax::decode_g4, or an
+   error value.  [columns], [rows]: the u32 parameters, [k]: the i32 parameter.  Each guard is read from the source
+   (Gen/Generated.v, the fax_ flags); with a guard missing the model does what the code did before the repair. *)
+Definition fax_geometry (k : Z) (columns rows : N) : res (N * option N) :=
+  (* `if params.k >= 0 { bail!(..) }` (the crate's unimplemented!() is a bail! too); without the test K >= 0 is decoded as Group 4 *)
+  if (0 <=? k)%Z && (fax_k_guard =? 1) then Err E_NUM else
+  do w <- (if fax_columns_guard =? 1
+           then (if (columns =? 0) || (U16 <=? columns) then Err E_NUM else Ok columns)   (* u16::try_from(columns), c > 0 *)
+           else Ok columns);                                                              (* `columns as usize`, any value *)
+  do h <- (if rows =? 0 then Ok None
+           else if fax_rows_guard =? 1 then (if U16 <=? rows then Err E_NUM else Ok (Some rows))   (* u16::try_from(rows) *)
+           else Ok (Some (rows mod U16)));                                                         (* `rows as u16` *)
+  do _ <- (if fax_no_capacity =? 1 then Ok 0 else fax_capacity columns rows);
+  Ok (w, h).
+
+(* the closure given to decode_g4: line by line, `buf.extend(pels(..))` then `buf.len() % width`.  [lines]: the number of
+   pels each delivered line contributed — ARBITRARY here (that pels() yields exactly `width` of them is the fax crate's
+   contract, not assumed).  A line that breaks the invariant sets a flag (an error after the call); before the repair
+   it was an assert_eq!. *)
+Fixpoint fax_lines (width : N) (lines : list N) (len : N) (ok : bool) : res (N * bool) :=
+  match lines with
+  | [] => Ok (len, ok)
+  | n :: t =>
+      do r <- ck_rem 1003 (len + n) width;                                                (* buf.len() % width *)
+      if r =? 0 then fax_lines width t (len + n) ok
+      else if fax_no_assert =? 1 then fax_lines width t (len + n) false else Panic 1005
+  end.
+
+(* fax_decode.  [decoded]: None = decode_g4 gave up, Some lines = it called the closure once per line *)
+Definition fax_decode (k : Z) (columns rows : N) (decoded : option (list N)) : res N :=
+  do g <- fax_geometry k columns rows;
+  let '(w, h) := g in
+  match decoded with
+  | None => Err E_NUM
+  | Some lines =>
+    do r <- fax_lines w lines 0 true;
+    let '(len, ok) := r in
+    if negb ok then Err E_NUM else
+    match h with
+    | None => Ok len
+    | Some rws => do e <- ck_mul 1001 w rws;                                              (* width * rows *)
+                  if len =? e then Ok len else Err E_NUM
+    end
+  end.
